@@ -7,6 +7,7 @@ import (
 	"net/http/httptest"
 	"net/url"
 	"strings"
+	"time"
 
 	"github.com/gookit/rux"
 	"github.com/gookit/rux/pkg/handlers"
@@ -300,15 +301,30 @@ func c20Run(c c20Case, st *fw.Stats) []fw.Viol {
 		}
 		carriers := []string{"none", "header", "query", "body", "header+query-agree", "header+body-disagree"}
 		for _, v := range values {
-			for _, carrier := range carriers {
+			for ci, carrier := range append(append([]string{}, carriers...), carriers...) {
 				st.Evals++
 				st.Nontrivial++
 				var seenMethod string
 				var seenOrig any
-				inner := http.HandlerFunc(func(w http.ResponseWriter, req *http.Request) {
+				var inner http.Handler = http.HandlerFunc(func(w http.ResponseWriter, req *http.Request) {
 					seenMethod = req.Method
 					seenOrig = req.Context().Value(handlers.OriginalMethodContextKey)
 				})
+				behind := ""
+				if ci >= len(carriers) {
+					// second pass: what is served is a rux router whose route sits behind the Timeout middleware (which
+					// replaces the request by one with a deadline) and a wrapped net/http handler
+					behind = " (downstream = a rux router, the handler behind handlers.Timeout(1h) and a wrapped net/http handler)"
+					rr := rux.New()
+					see := func(ctx *rux.Context) {
+						seenMethod = ctx.Req.Method
+						seenOrig = ctx.ReqCtxValue(handlers.OriginalMethodContextKey)
+					}
+					rr.Use(handlers.Timeout(time.Hour), rux.WrapH(http.HandlerFunc(func(http.ResponseWriter, *http.Request) {})))
+					rr.Any("/r", see)
+					rr.NotFound(see) // (method strings the router has no routes for end here, behind the same middleware)
+					inner = rr
+				}
 				h := handlers.HTTPMethodOverrideHandler(inner)
 				target := "/r"
 				var body string
@@ -351,7 +367,7 @@ func c20Run(c c20Case, st *fw.Stats) []fw.Viol {
 					if !rewrite {
 						sig = "override:unexpected-rewrite"
 					}
-					add(sig, fmt.Sprintf("request method %s, override value %q via %s: downstream saw method %q original %v; expected method %q original %v", c.Method, v, carrier, seenMethod, seenOrig, wantMethod, wantOrig))
+					add(sig, fmt.Sprintf("request method %s, override value %q via %s%s: downstream saw method %q original %v; expected method %q original %v", c.Method, v, carrier, behind, seenMethod, seenOrig, wantMethod, wantOrig))
 				}
 			}
 		}
